@@ -160,6 +160,8 @@ class AObjSource:
     async def aclose(self):
         self.env.closes += 1
         self.env.dead = True
+        if getattr(self.env, "close_raises", False):
+            raise OSError("connection lost while closing")
 
 
 class AObjNoClose:
@@ -284,9 +286,18 @@ class Run:
         res = drive(coro)
         if res.exc is None:
             return ["closed"]
-        if isinstance(res.exc, RuntimeError) and "already running" in str(res.exc):
+        exc, res.exc = res.exc, None
+        # an exception keeps the frames it passed through (the children's, with their buffers) alive through its traceback
+        # and through the tracebacks of its context chain (the GeneratorExit thrown into the child): the caller drops it here
+        link, seen = exc, set()
+        while link is not None and id(link) not in seen:
+            seen.add(id(link))
+            link.__traceback__ = None
+            link = link.__context__ or link.__cause__
+        del link
+        if isinstance(exc, RuntimeError) and "already running" in str(exc):
             return ["busy"]
-        return ["error", type(res.exc).__name__]
+        return ["error", type(exc).__name__]
 
     def close(self, i):
         if i >= len(self.tasks):
@@ -380,7 +391,56 @@ def drain_ops(case):
     return [["s", i] for _ in range(rounds) for i in range(case["n"])]
 
 
+def _observe_srcclose(case):
+    """prefix operations, then `Tee.aclose()` over a source whose own `aclose()` RAISES (Machines/TeeClose.lean)"""
+    was_enabled = gc.isenabled()
+    gc.disable()
+    try:
+        run = Run(case)
+        run.env.close_raises = case["srcclose"] == "raises"
+        for op in case["ops"]:
+            run.apply(op)
+        before = len(run.env.alive())
+        closes_before = run.env.closes
+        out = run.close_all()
+        after = len(run.env.alive())
+        closes_after = run.env.closes
+        second = run._aclose(run.tee.aclose())
+        obs = {"out": out, "alive_before": before, "alive_after": after, "closes_before": closes_before, "closes_after": closes_after,
+               "second": second, "closes_second": run.env.closes, "alive_second": len(run.env.alive()),
+               "inside": [bool(x) for x in run.inside]}
+        run.env.close_raises = False
+        run.teardown()
+        return obs
+    finally:
+        if was_enabled:
+            gc.enable()
+
+
+def _judge_srcclose(case, obs, model):
+    issues = []
+    busy = obs["out"] == ["busy"]
+    if not busy and obs["alive_after"] != 0:
+        issues.append(Issue("oracle", obs, "tee-closed-but-backlog-retained"))
+    if not busy and obs["closes_after"] < 1:
+        issues.append(Issue("oracle", obs, "tee-closed-but-source-not-closed"))
+    if not busy and (obs["second"] != ["closed"] or obs["closes_second"] != obs["closes_after"] or obs["alive_second"] != 0):
+        issues.append(Issue("oracle", obs, "second-tee-aclose-not-a-no-op"))
+    if model is not None:
+        if "error" in model:
+            issues.append(Issue("A", model))
+        else:
+            mout = ["error"] if model["raised"] else model["out"][:1]
+            got = (obs["out"][:1], obs["closes_before"], obs["closes_after"])
+            exp = (mout, model["closes_before"], model["closes_after"])
+            if got != exp or (not busy and model["retained_after"] != obs["alive_after"]):
+                issues.append(Issue("A", {"asyncstdlib": obs, "model": model}))
+    return issues
+
+
 def observe(case):
+    if case.get("srcclose"):
+        return _observe_srcclose(case)
     was_enabled = gc.isenabled()
     gc.disable()
     try:
@@ -452,6 +512,9 @@ def decode_steps(obs):
 
 
 def model_request(case):
+    if case.get("srcclose"):
+        return {"m": "teeclose", "items": list(range(case["len"])), "n": case["n"], "susp": case["susp"], "lock": case["lock"],
+                "closeable": True, "dies": False, "ops": case["ops"], "srcclose": case["srcclose"]}
     if case.get("handoff"):
         return None     # the machine's lock releases without suspending; hand-off locks are judged by the oracles alone
     kind = case["kind"]
@@ -465,6 +528,8 @@ def precondition(case):
 
 def judge(case, obs, model):
     issues = []
+    if case.get("srcclose"):
+        return _judge_srcclose(case, obs, model)
     ops = all_ops(case)
     steps = decode_steps(obs)
     final = obs["final"]
@@ -580,6 +645,8 @@ def judge(case, obs, model):
 
 
 def features(case, obs):
+    if case.get("srcclose"):
+        return ["family=srcclose:" + case["srcclose"], "srcclose-out=" + obs["out"][0], "n=%d" % case["n"]]
     f = ["n=%d" % case["n"], "len=%d" % case["len"], "lock=%s" % case["lock"], "kind=" + case["kind"],
          "maxsusp=%d" % max(case["susp"] or [0]), "origin=" + case.get("origin", "?"),
          "pre=%s" % precondition(case)]
@@ -603,6 +670,8 @@ def features(case, obs):
 
 
 def nontrivial(case, obs):
+    if case.get("srcclose"):
+        return bool(case["ops"])
     steps = decode_steps(obs)
     if not steps:
         return False
@@ -783,6 +852,11 @@ def cases(tier, rng):
     for k in range(nr):
         case = random_case(rng)
         yield case
+        if k % 3 == 0 and (case["lock"] or all(x == 0 for x in case["susp"])):
+            # a prefix of the schedule, then the WHOLE tee is closed while closing the source fails / succeeds / is
+            # impossible (Machines/TeeClose.lean): nothing may stay retained, the source is closed once, a second close is a no-op
+            pre = [op for op in case["ops"] if op[0] != "ca"][: rng.randrange(len(case["ops"]) + 1)]
+            yield dict(case, kind="aobj", srcclose=["raises", "raises", "ok"][k % 3 if k % 9 else 2], ops=pre, origin="srcclose", drain=0)
         if k % 6 == 0 and case["lock"]:
             # the same schedule with a hand-off lock (its __aexit__ suspends after releasing): oracle-only
             h = 1 + k % 2
